@@ -662,8 +662,8 @@ fn handle(natives: &[(&'static str, NativeFn)], session: &mut Option<Session>, p
             let c = unhex(words.get(1).ok_or("missing command")?).ok_or("bad hex")?;
             let at_step: usize = words.get(2).copied().unwrap_or("0").parse().map_err(|_| "bad step")?;
             if sess.umbilical_high.is_some() {
-                // command <hex> <k>: available to the evaluator from its k-th loop head on (counted since `new`)
-                verif::script_command(at_step, c);
+                // command <hex> <k>: available to the evaluator from the k-th loop head after this request on
+                verif::script_command(verif::steps() + at_step, c);
                 Ok("ok".to_string())
             }
             else {
